@@ -27,7 +27,8 @@ chk("C14", "model_checking",
 
 chk("C02", "model_checking",
     "Stateless bounded-exhaustive exploration on the real binary: all programs of the generated universes (every expression "
-    "neighbourhood of G_expr(2) in statement/argument/#define contexts, preprocessor shapes, declaration units, statements) x base "
+    "neighbourhood of G_expr(2) in statement/argument/#define contexts, preprocessor shapes, declaration units, statements, skeletons of all "
+    "nine languages) x base "
     "profiles (defaults, all-remove/force/add spacing, whitespace projection of 15 shipped styles) x every single deviation over "
     "every whitespace option the base run reads (sound read-set pruning); thorough adds sp x sp pairs and the 1321 corpus files. "
     "Oracle: independent C/C++/ObjC/Java lexer with directive structure; uncrustify's own raw tokeniser for the other languages.",
@@ -85,7 +86,8 @@ chk("C05", "model_checking",
     "profile): generated statement packs, declaration/preprocessor units in C and C++, expression packs in up to 7 uniform layouts x "
     "{defaults + 15 curated profiles}; thorough adds every C/C++ corpus file <= 40 kB x the same profiles as a fixed universe with "
     "individually listed exceptions. Oracle: pass 2 == pass 1, pass 3 == pass 2 byte for byte and --check passes on pass 1; weak claim "
-    "(second pass exits 0) for every single deviation over the read set.",
+    "(second pass exits 0) for every single deviation over the read set; tree clause: every ordered pair (and the whole set) of five "
+    "state-heavy files formatted by ONE invocation, then re-formatted file by file.",
     "profile set = defaults + /verif/profiles/*.cfg; unstable (file, profile) pairs are recorded one by one in known_findings.txt",
     "exhaustive enumeration of length-3 formatting histories over a finite program x layout x profile universe", "3/C05")
 
@@ -94,7 +96,8 @@ chk("C06", "model_checking",
     "Stateless bounded-exhaustive exploration on the ASan+UBSan build of the real binary: every byte prefix and line suffix of every "
     "language skeleton (9 languages) and of the generated declaration/preprocessor units, every token mutation (delete/duplicate/swap "
     "at every position, every bracket replaced by every other bracket), all byte strings of length <= 2 (quick: over a 44-byte alphabet) "
-    "as a file and after a valid line, ~150 unterminated-construct tails, every line-prefix truncation of the corpus files (quick: files "
+    "as a file and after a valid line, ~170 unterminated-construct tails, 50 tokens repeated 1030 (thorough: 300 / 1030 / 4100) times (fixed-size "
+    "tables, recursion depth), brace-unbalancing mutations of an #if/#elif/#else skeleton x every pp_ option, every line-prefix truncation of the corpus files (quick: files "
     "<= 30 lines) x {defaults, kitchen-sink profiles, comment-insertion profile, curated styles}; plus every single deviation of every option "
     "the run reads (incl. mod_/cmt_/lexer options) on the inputs that end inside a construct. Oracle: exit (no signal), documented "
     "status, no sanitizer report, <= 10 s (confirmed alone with 60 s), nothing on stdout and a diagnostic on stderr when refused.",
